@@ -19,6 +19,7 @@ import NeumannModel.Vault.Model
     batchget <now> <req> <s,s,..>     batchset <now> <req> <sec:val:size,..>
     wrap <now> <req> <sec>            unwrap <token-number>
     undelegatec <now> <parent> <child>                  reopen <now>
+    probe <now> <req> <sec> <lvl> <mustExist 0|1>
 -/
 open Neumann Neumann.Proto Neumann.Vault
 
@@ -127,6 +128,10 @@ def vaultStep (s : State) (line : String) : State × String :=
       | some [_, p, c] => fin (s.undelegateCascade p c) | _ => bad
   | "reopen" :: rest => match nats rest with
       | some [now] => fin (s.reopen now) | _ => bad
+  | "probe" :: rest => match nats rest with
+      | some [now, req, sec, l, me] => (match Level.ofNat? l with
+          | some l => fin (s.probe now req sec l (me = 1)) | none => bad)
+      | _ => bad
   | "perm" :: rest => match nats rest with
       | some [now, req, sec] =>
         -- `Vault::get_permission`: a non-root caller expires grants first (state effect kept)
